@@ -49,14 +49,14 @@ SessFromObs(o, c, now) ==
                ELSE now - (c.expireAfter - o.expLeft),
    app1 |-> o.app1, app2 |-> o.app2]
 
-FromObs(o, c, iss, scp) ==
+FromObs(o, c, iss, scp, spent) ==
   [now |-> o.now,
    db |-> [p \in Pids |-> IF p \in DOMAIN o.db THEN UserFromObs(o.db[p], c, o.now) ELSE NoUser],
    rm |-> {[o |-> t.o, id |-> t.id] : t \in ToSet(o.rm)},
    sess |-> [b \in Browsers |-> IF b \in DOMAIN o.sess THEN SessFromObs(o.sess[b], c, o.now) ELSE EmptySess],
    cookie |-> [b \in Browsers |-> IF b \in DOMAIN o.cookie THEN o.cookie[b] ELSE 0],
    iss |-> [k \in Kinds |-> iss[k]],
-   scPhone |-> scp]
+   scPhone |-> scp, spent |-> spent]
 
 -----------------------------------------------------------------------------
 (* specification state  ->  the observable projection (what Go's Project emits) *)
@@ -140,7 +140,8 @@ StepLine(line) ==
   LET e    == line.e
       r    == Apply(st, cfg, e)
       S2   == FromObs(line.post, cfg, line.iss,
-                      st.scPhone \cup {<<s.code, s.phone>> : s \in SmsObsSet(line.resp.sms)})
+                      st.scPhone \cup {<<s.code, s.phone>> : s \in SmsObsSet(line.resp.sms)},
+                      r.st.spent)
       d    == Diff(r.st, cfg, line.post) \cup (IF e.act \in EnvActs THEN {} ELSE RespDiff(r.resp, line.resp))
       pv   == PropViolations(st, S2, cfg, e, RespFromObs(line.resp))
       add1 == IF d = {} THEN <<>>
@@ -160,7 +161,7 @@ TraceNext ==
   /\ LET line == T[l] IN
        IF line.kind = "init"
        THEN /\ cfg' = CfgOf(line)
-            /\ st' = FromObs(line.post, cfg', line.iss, {})
+            /\ st' = FromObs(line.post, cfg', line.iss, {}, {})
             /\ resp' = R0
             /\ rep' = rep
        ELSE StepLine(line)
